@@ -39,6 +39,20 @@ func genC01(t *rapid.T) c01Scenario {
 			s.Rpm = ip(rapid.SampledFrom([]int{0, 1, 800, 1000000}).Draw(t, "rpmNew"))
 		}
 		s.Zero = rapid.IntRange(0, 7).Draw(t, "zero") == 0
+		// "every control-algorithm state": third parties and failing devices put the controller into
+		// states ordinary cycles do not reach
+		switch rapid.IntRange(0, 19).Draw(t, "disturb") {
+		case 0:
+			s.IntPwm = ip(rapid.IntRange(0, 255).Draw(t, "intPwm"))
+		case 1:
+			s.IntMode = ip(rapid.SampledFrom([]int{0, 2, 3}).Draw(t, "intMode"))
+		case 2:
+			s.PwmWrite = rapid.SampledFrom([]int{sim.WriteRefuse, sim.WriteIgnore}).Draw(t, "pwmWrite")
+		case 3:
+			s.PwmRead = rapid.SampledFrom([]int{sim.ReadEIO, sim.ReadGarbage, sim.ReadEmpty}).Draw(t, "pwmRead")
+		case 4:
+			s.RpmRead = rapid.SampledFrom([]int{sim.ReadEIO, sim.ReadGarbage}).Draw(t, "rpmRead")
+		}
 		sc.Steps = append(sc.Steps, s)
 	}
 	return c01Scenario{Loop: sc, Eff: eff}
@@ -114,6 +128,12 @@ func runC01(t *testing.T, sc c01Scenario) verdict {
 	}
 	if sc.Loop.Fan.NeverStop {
 		labels = append(labels, "neverStop")
+	}
+	for _, s := range sc.Loop.Steps {
+		if s.IntPwm != nil || s.IntMode != nil || s.PwmWrite != 0 || s.PwmRead != 0 || s.RpmRead != 0 {
+			labels = append(labels, "disturbed")
+			break
+		}
 	}
 	if res.Ended {
 		labels = append(labels, "ended-early")
